@@ -253,16 +253,29 @@ unsafe fn open_common(name: &'static str, path: *const c_char, flags: c_int, mod
     }
     let acc = flags & libc::O_ACCMODE;
     let _ = name;
+    // a file created in a key directory: record how restricted that directory is at this very instant
+    let mut dir_state = String::new();
+    if creating && fd >= 0 && p.contains("/keys/") {
+        if let Some(parent) = std::path::Path::new(&p).parent() {
+            if let Ok(c) = std::ffi::CString::new(parent.to_string_lossy().as_bytes()) {
+                let mut st: libc::stat = std::mem::zeroed();
+                if libc::stat(c.as_ptr(), &mut st) == 0 {
+                    dir_state = format!(" dir={:o}/uid{}", st.st_mode & 0o7777, st.st_uid);
+                }
+            }
+        }
+    }
     trace(
         "open",
         &p,
         format!(
-            "{}{}{}{} -> {}",
+            "{}{}{}{} -> {}{}",
             if acc == libc::O_RDONLY { "r" } else if acc == libc::O_WRONLY { "w" } else { "rw" },
             if creating { "+creat" } else { "" },
             if flags & libc::O_TRUNC != 0 { "+trunc" } else { "" },
             if flags & libc::O_APPEND != 0 { "+append" } else { "" },
-            if fd >= 0 { "ok".to_string() } else { format!("errno {}", e) }
+            if fd >= 0 { "ok".to_string() } else { format!("errno {}", e) },
+            dir_state
         ),
         false,
     );
